@@ -154,6 +154,14 @@ def run_case(ck, desc):
         _cmp(ck, "d(Bob)/d(Rs) (integer-typed GOR)", hv, ad_r, desc, {"gor": rint})
         ck.count("integer_typed_inputs_checked")
 
+    # (b'') a twin state a few parts per million away, evaluated right afterwards (history-independence)
+    p_tw = p * (1 + 3e-6)
+    if (p_tw < pb) == (p < pb):
+        _, ad_tw = derivative(lambda x: oil.solution_gor_Standing(T, x, api, gg, gor), p_tw)
+        _cmp(ck, "d(Rs)/dp (twin state)", float(oil.dgor_dpressure_Standing(T, p_tw, api, gg, gor)), ad_tw, desc, {"p": p_tw})
+    _, ad_tw = derivative(lambda x: water.b_water_McCain(Tw * (1 + 2e-6), x), pw)
+    _cmp(ck, "d(Bw)/dp (twin state)", float(water.b_water_McCain_dp(Tw * (1 + 2e-6), pw)), ad_tw, desc, {"T": Tw * (1 + 2e-6)})
+
     # (c) bubble-point FVF derivative with respect to GOR
     r = desc["gor_eval"]
     _, ad = derivative(lambda x: oil.b_o_bubblepoint_Standing(T, api, gg, x), r)
